@@ -965,36 +965,198 @@ Qed.
 Lemma firstn_lenZ {A} (l : list A) : firstn (Z.to_nat (lenZ l)) l = l.
 Proof. unfold lenZ. rewrite Nat2Z.id. apply firstn_all. Qed.
 
-Lemma compare_data_nil n1 n2 a1 l1 t1 d1 da1 k1 a2 l2 t2 d2 da2 k2 :
+(* ---- -t<tol>: the tolerance branch (exceeds_tol32 / exceeds_tol64 treated as opaque boolean functions) -------------------- *)
+Lemma compare_floats_true_iff : forall tol l1 l2,
+  compare_floats tol l1 l2 = true <-> exists x y, In (x, y) (combine l1 l2) /\ exceeds_tol32 x y tol = true.
+Proof.
+  intros tol. induction l1 as [|a r1 IH]; intros [|b r2]; cbn [compare_floats combine].
+  - split; [discriminate|intros (x & y & [] & _)].
+  - split; [discriminate|intros (x & y & [] & _)].
+  - split; [discriminate|intros (x & y & [] & _)].
+  - destruct (exceeds_tol32 a b tol) eqn:E.
+    + split; auto. intros _. exists a, b. split; auto. left; auto.
+    + rewrite IH. split.
+      * intros (x & y & I & H). exists x, y. split; auto. right; auto.
+      * intros (x & y & [C|I] & H); [injection C as <- <-; congruence|eauto].
+Qed.
+Lemma compare_doubles_true_iff : forall tol l1 l2,
+  compare_doubles tol l1 l2 = true <-> exists x y, In (x, y) (combine l1 l2) /\ exceeds_tol64 x y tol = true.
+Proof.
+  intros tol. induction l1 as [|a r1 IH]; intros [|b r2]; cbn [compare_doubles combine].
+  - split; [discriminate|intros (x & y & [] & _)].
+  - split; [discriminate|intros (x & y & [] & _)].
+  - split; [discriminate|intros (x & y & [] & _)].
+  - destruct (exceeds_tol64 a b tol) eqn:E.
+    + split; auto. intros _. exists a, b. split; auto. left; auto.
+    + rewrite IH. split.
+      * intros (x & y & I & H). exists x, y. split; auto. right; auto.
+      * intros (x & y & [C|I] & H); [injection C as <- <-; congruence|eauto].
+Qed.
+Lemma compare_floats_false_iff tol l1 l2 :
+  compare_floats tol l1 l2 = false <-> forall x y, In (x, y) (combine l1 l2) -> exceeds_tol32 x y tol = false.
+Proof.
+  split.
+  - intros H x y I. destruct (exceeds_tol32 x y tol) eqn:E; auto.
+    assert (C : compare_floats tol l1 l2 = true) by (apply compare_floats_true_iff; eauto). congruence.
+  - intros H. destruct (compare_floats tol l1 l2) eqn:E; auto.
+    apply compare_floats_true_iff in E as (x & y & I & C). rewrite (H x y I) in C. discriminate.
+Qed.
+Lemma compare_doubles_false_iff tol l1 l2 :
+  compare_doubles tol l1 l2 = false <-> forall x y, In (x, y) (combine l1 l2) -> exceeds_tol64 x y tol = false.
+Proof.
+  split.
+  - intros H x y I. destruct (exceeds_tol64 x y tol) eqn:E; auto.
+    assert (C : compare_doubles tol l1 l2 = true) by (apply compare_doubles_true_iff; eauto). congruence.
+  - intros H. destruct (compare_doubles tol l1 l2) eqn:E; auto.
+    apply compare_doubles_true_iff in E as (x & y & I & C). rewrite (H x y I) in C. discriminate.
+Qed.
+
+Lemma groups_step n f l : groups n (S f) l =
+  if (length l <? n)%nat then [] else le_val (firstn n l) :: groups n f (skipn n l).
+Proof.
+  cbn [groups]. rewrite firstn_length.
+  destruct (Nat.ltb_spec (length l) n) as [A|A]; destruct (Nat.ltb_spec (Nat.min n (length l)) n) as [B|B]; auto; lia.
+Qed.
+Lemma groups_fuel n : (0 < n)%nat -> forall f1 f2 l, (length l <= f1)%nat -> (length l <= f2)%nat ->
+  groups n f1 l = groups n f2 l.
+Proof.
+  intros Hn. induction f1 as [|f1 IH]; intros f2 l H1 H2.
+  - destruct l; [|simpl in H1; lia]. destruct f2; [reflexivity|]. rewrite groups_step.
+    destruct (Nat.ltb_spec (length (@nil Z)) n) as [?|C]; auto. simpl in C. lia.
+  - destruct f2 as [|f2].
+    + destruct l; [|simpl in H2; lia]. rewrite groups_step.
+      destruct (Nat.ltb_spec (length (@nil Z)) n) as [?|C]; auto. simpl in C. lia.
+    + rewrite !groups_step. destruct (Nat.ltb_spec (length l) n); auto. f_equal.
+      apply IH; rewrite skipn_length; lia.
+Qed.
+Lemma values_cons : forall n a rest, (0 < n)%nat -> length a = n -> values n (a ++ rest) = le_val a :: values n rest.
+Proof.
+  intros n a rest Hn Ha. subst n. unfold values. rewrite app_length.
+  destruct (length a + length rest)%nat as [|f] eqn:Ef; [lia|]. rewrite groups_step.
+  destruct (Nat.ltb_spec (length (a ++ rest)) (length a)) as [C|_]; [rewrite app_length in C; lia|].
+  rewrite firstn_app, skipn_app, firstn_all, skipn_all, Nat.sub_diag.
+  cbn [firstn skipn]. rewrite app_nil_r. cbn [app]. f_equal. apply groups_fuel; auto; lia.
+Qed.
+
+Definition data_within (tol : Z) (dt da1 da2 : bytes) : Prop :=
+  if tol_active tol && negb (diff_num_size dt =? 0) then
+    (if diff_num_size dt =? 4
+     then forall x y, In (x, y) (combine (values 4 da1) (values 4 da2)) -> exceeds_tol32 x y tol = false
+     else forall x y, In (x, y) (combine (values 8 da1) (values 8 da2)) -> exceeds_tol64 x y tol = false)
+  else da1 = da2.
+(* the error flag compare_data computes on the two data arrays *)
+Definition data_err (tol : Z) (dt a1 a2 : bytes) : bool :=
+  if tol_active tol && negb (diff_num_size dt =? 0)
+  then (if diff_num_size dt =? 4 then compare_floats tol (values 4 a1) (values 4 a2)
+        else compare_doubles tol (values 8 a1) (values 8 a2))
+  else negb (bytes_eqb a1 a2).
+Lemma data_err_false_iff tol dt a1 a2 : data_err tol dt a1 a2 = false <-> data_within tol dt a1 a2.
+Proof.
+  unfold data_err, data_within. destruct (tol_active tol && negb (diff_num_size dt =? 0)).
+  - destruct (diff_num_size dt =? 4); [apply compare_floats_false_iff|apply compare_doubles_false_iff].
+  - rewrite negb_false_iff. apply bytes_eqb_eq.
+Qed.
+
+(* two well-formed nodes with the same label, type and (non-empty) dimensions: the data decide *)
+Lemma compare_data_same_shape tol n1 n2 a1 a2 l t d da1 da2 k1 k2 :
+  node_ok Old false t d da1 = true -> node_ok Old false t d da2 = true -> d <> [] ->
+  compare_data true tol n1 n2 (Node a1 l t d da1 k1) (Node a2 l t d da2 k2) =
+  if data_err tol t da1 da2 then [DData n1 n2] else [].
+Proof.
+  intros O1 O2 Hd. unfold compare_data. rewrite !bytes_eqb_refl, Nat.eqb_refl. cbn [negb orb].
+  apply node_ok_cases in O1. apply node_ok_cases in O2.
+  destruct O1 as [[C _]|(_ & Hs & Hp & Hl)]; [contradiction|].
+  destruct O2 as [[C _]|(_ & _ & _ & Hl2)]; [contradiction|].
+  destruct d as [|x d]; [contradiction|]. cbn [is_nil].
+  unfold diff_data_size. cbn [is_nil]. rewrite fold_left_mul.
+  destruct (std_type_facts _ Hs) as [Hpos Hds]. rewrite Hds.
+  pose proof (prodZ_pos _ Hp) as Hpp.
+  replace (std_size t * (1 * prodZ (x :: d))) with (lenZ da1) by lia.
+  assert (Hb : 0 <? lenZ da1 = true) by (apply Z.ltb_lt; nia). rewrite Hb.
+  replace (firstn (Z.to_nat (lenZ da1)) da2) with (firstn (Z.to_nat (lenZ da2)) da2)
+    by (f_equal; f_equal; lia).
+  rewrite !firstn_lenZ. reflexivity.
+Qed.
+
+(* with -d and any -t: silent iff label, type, dimensions equal and every numeric value pair within the tolerance formula /
+   every byte equal where the type is not numeric or the tolerance not active *)
+Theorem compare_data_tol_iff : forall tol n1 n2 a1 l1 t1 d1 da1 k1 a2 l2 t2 d2 da2 k2,
   node_ok Old false t1 d1 da1 = true -> node_ok Old false t2 d2 da2 = true ->
-  (compare_data true n1 n2 (Node a1 l1 t1 d1 da1 k1) (Node a2 l2 t2 d2 da2 k2) = [] <->
+  (compare_data true tol n1 n2 (Node a1 l1 t1 d1 da1 k1) (Node a2 l2 t2 d2 da2 k2) = [] <->
+   l1 = l2 /\ t1 = t2 /\ d1 = d2 /\ data_within tol t1 da1 da2).
+Proof.
+  intros tol n1 n2 a1 l1 t1 d1 da1 k1 a2 l2 t2 d2 da2 k2 O1 O2.
+  assert (Hsame : l1 = l2 /\ t1 = t2 /\ d1 = d2 ->
+            (compare_data true tol n1 n2 (Node a1 l1 t1 d1 da1 k1) (Node a2 l2 t2 d2 da2 k2) = [] <->
+             data_within tol t1 da1 da2)).
+  { intros (<- & <- & <-). destruct d1 as [|x d] eqn:Ed.
+    - apply node_ok_cases in O1. apply node_ok_cases in O2.
+      destruct O1 as [[_ ->]|(C & _)]; [|contradiction]. destruct O2 as [[_ ->]|(C & _)]; [|contradiction].
+      unfold compare_data. rewrite !bytes_eqb_refl. cbn. split; auto. intros _.
+      unfold data_within. destruct (tol_active tol && negb (diff_num_size t1 =? 0)); auto.
+      destruct (diff_num_size t1 =? 4); intros ? ? [].
+    - rewrite compare_data_same_shape by (auto; discriminate). rewrite <- data_err_false_iff.
+      destruct (data_err tol t1 da1 da2); split; auto; discriminate. }
+  split.
+  - intros H.
+    assert (E : l1 = l2 /\ t1 = t2 /\ d1 = d2).
+    { unfold compare_data in H.
+      destruct (bytes_eqb l1 l2) eqn:E1; [|discriminate]. apply bytes_eqb_eq in E1.
+      destruct (bytes_eqb t1 t2) eqn:E2; [|discriminate]. apply bytes_eqb_eq in E2.
+      cbn [negb] in H. destruct (Nat.eqb (length d1) (length d2)); [|discriminate].
+      destruct (bytes_eqb d1 d2) eqn:E3; [|discriminate]. apply bytes_eqb_eq in E3. auto. }
+    destruct E as (E1 & E2 & E3). repeat split; auto. apply Hsame; auto.
+  - intros (E1 & E2 & E3 & W). apply Hsame; auto.
+Qed.
+
+(* in particular: ONE value (one component of one element) beyond the tolerance is reported, for every numeric type *)
+Theorem one_value_beyond_tolerance_reported : forall tol n1 n2 a1 a2 l t d da1 da2 k1 k2 x y,
+  node_ok Old false t d da1 = true -> node_ok Old false t d da2 = true ->
+  tol_active tol = true ->
+  (diff_num_size t = 4 /\ In (x, y) (combine (values 4 da1) (values 4 da2)) /\ exceeds_tol32 x y tol = true \/
+   diff_num_size t = 8 /\ In (x, y) (combine (values 8 da1) (values 8 da2)) /\ exceeds_tol64 x y tol = true) ->
+  compare_data true tol n1 n2 (Node a1 l t d da1 k1) (Node a2 l t d da2 k2) = [DData n1 n2].
+Proof.
+  intros tol n1 n2 a1 a2 l t d da1 da2 k1 k2 x y O1 O2 Ha H.
+  destruct d as [|z d].
+  - exfalso. apply node_ok_cases in O1. apply node_ok_cases in O2.
+    destruct O1 as [[_ ->]|(C & _)]; [|contradiction]. destruct H as [(_ & [] & _)|(_ & [] & _)].
+  - rewrite compare_data_same_shape by (auto; discriminate).
+    assert (E : data_err tol t da1 da2 = true).
+    { unfold data_err. rewrite Ha. destruct H as [(S4 & I & E)|(S8 & I & E)].
+      - rewrite S4. cbn. apply compare_floats_true_iff. eauto.
+      - rewrite S8. cbn. apply compare_doubles_true_iff. eauto. }
+    rewrite E. reflexivity.
+Qed.
+
+(* -t means nothing for integers and characters, and nothing when it is not > 0 *)
+Lemma tol_ignored_for_non_numeric : forall dd tol n1 n2 a1 l1 t1 d1 da1 k1 y,
+  diff_num_size t1 = 0 ->
+  compare_data dd tol n1 n2 (Node a1 l1 t1 d1 da1 k1) y = compare_data dd 0 n1 n2 (Node a1 l1 t1 d1 da1 k1) y.
+Proof.
+  intros dd tol n1 n2 a1 l1 t1 d1 da1 k1 y H. unfold compare_data. destruct y; auto.
+  rewrite H. cbn [Z.eqb negb]. rewrite !andb_false_r. reflexivity.
+Qed.
+Lemma tol_active_0 : tol_active 0 = false.
+Proof. reflexivity. Qed.
+Lemma compare_data_tol_inactive dd tol n1 n2 x y :
+  tol_active tol = false -> compare_data dd tol n1 n2 x y = compare_data dd 0 n1 n2 x y.
+Proof.
+  intros H. unfold compare_data. destruct x, y; auto. rewrite H, tol_active_0. reflexivity.
+Qed.
+Lemma data_within_inactive tol dt da1 da2 : tol_active tol = false -> (data_within tol dt da1 da2 <-> da1 = da2).
+Proof. intros H. unfold data_within. rewrite H. reflexivity. Qed.
+
+Lemma compare_data_nil tol n1 n2 a1 l1 t1 d1 da1 k1 a2 l2 t2 d2 da2 k2 :
+  tol_active tol = false ->
+  node_ok Old false t1 d1 da1 = true -> node_ok Old false t2 d2 da2 = true ->
+  (compare_data true tol n1 n2 (Node a1 l1 t1 d1 da1 k1) (Node a2 l2 t2 d2 da2 k2) = [] <->
    l1 = l2 /\ t1 = t2 /\ d1 = d2 /\ da1 = da2).
 Proof.
-  intros O1 O2. unfold compare_data. split.
-  - destruct (bytes_eqb l1 l2) eqn:E1; [|discriminate]. apply bytes_eqb_eq in E1.
-    destruct (bytes_eqb t1 t2) eqn:E2; [|discriminate]. apply bytes_eqb_eq in E2.
-    cbn [negb]. destruct (Nat.eqb (length d1) (length d2)); [|discriminate].
-    destruct (bytes_eqb d1 d2) eqn:E3; [|discriminate]. apply bytes_eqb_eq in E3.
-    cbn [negb orb]. subst l2 t2 d2. intros H. repeat split; auto.
-    apply node_ok_cases in O1. apply node_ok_cases in O2.
-    destruct O1 as [[Hd Ha]|(Hd & Hs & Hp & Hl)].
-    + subst d1. destruct O2 as [[_ Hb]|(Hd2 & _)]; [congruence|contradiction].
-    + destruct O2 as [[Hd2 _]|(_ & _ & _ & Hl2)]; [contradiction|].
-      destruct d1 as [|x d1]; [contradiction|]. cbn [is_nil] in H.
-      unfold diff_data_size in H. cbn [is_nil] in H. rewrite fold_left_mul in H.
-      destruct (std_type_facts _ Hs) as [Hpos Hds]. rewrite Hds in H.
-      pose proof (prodZ_pos _ Hp) as Hpp.
-      replace (std_size t1 * (1 * prodZ (x :: d1))) with (lenZ da1) in H by lia.
-      assert (Hb : 0 <? lenZ da1 = true) by (apply Z.ltb_lt; nia). rewrite Hb in H.
-      replace (firstn (Z.to_nat (lenZ da1)) da2) with (firstn (Z.to_nat (lenZ da2)) da2) in H
-        by (f_equal; f_equal; lia).
-      rewrite !firstn_lenZ in H.
-      destruct (bytes_eqb da1 da2) eqn:E4; [|discriminate]. apply bytes_eqb_eq; auto.
-  - intros (-> & -> & -> & ->). rewrite !bytes_eqb_refl, Nat.eqb_refl. cbn [negb orb].
-    destruct (is_nil d2); auto. destruct (0 <? diff_data_size t2 d2); auto.
+  intros Ht O1 O2. rewrite compare_data_tol_iff by auto. rewrite data_within_inactive by auto. reflexivity.
 Qed.
-Lemma compare_data_nil_false n1 n2 a1 l1 t1 d1 da1 k1 a2 l2 t2 d2 da2 k2 :
-  (compare_data false n1 n2 (Node a1 l1 t1 d1 da1 k1) (Node a2 l2 t2 d2 da2 k2) = [] <->
+Lemma compare_data_nil_false tol n1 n2 a1 l1 t1 d1 da1 k1 a2 l2 t2 d2 da2 k2 :
+  (compare_data false tol n1 n2 (Node a1 l1 t1 d1 da1 k1) (Node a2 l2 t2 d2 da2 k2) = [] <->
    l1 = l2 /\ t1 = t2 /\ d1 = d2).
 Proof.
   unfold compare_data. split.
@@ -1004,12 +1166,13 @@ Proof.
     destruct (bytes_eqb d1 d2) eqn:E3; [|discriminate]. apply bytes_eqb_eq in E3. auto.
   - intros (-> & -> & ->). rewrite !bytes_eqb_refl, Nat.eqb_refl. reflexivity.
 Qed.
-Lemma compare_data_nil_dd dd n1 n2 a1 l1 t1 d1 da1 k1 a2 l2 t2 d2 da2 k2 :
+Lemma compare_data_nil_dd dd tol n1 n2 a1 l1 t1 d1 da1 k1 a2 l2 t2 d2 da2 k2 :
+  tol_active tol = false ->
   node_ok Old false t1 d1 da1 = true -> node_ok Old false t2 d2 da2 = true ->
-  (compare_data dd n1 n2 (Node a1 l1 t1 d1 da1 k1) (Node a2 l2 t2 d2 da2 k2) = [] <->
+  (compare_data dd tol n1 n2 (Node a1 l1 t1 d1 da1 k1) (Node a2 l2 t2 d2 da2 k2) = [] <->
    l1 = l2 /\ t1 = t2 /\ d1 = d2 /\ (if dd then da1 else []) = (if dd then da2 else [])).
 Proof.
-  intros O1 O2. destruct dd.
+  intros Ht O1 O2. destruct dd.
   - apply compare_data_nil; auto.
   - rewrite compare_data_nil_false. tauto.
 Qed.
@@ -1373,7 +1536,7 @@ Lemma compare_nodes_S o w1 w2 f name1 cf1 a1 l1 t1 d1 da1 ks1 name2 cf2 a2 l2 t2
   d_recurse o = true ->
   compare_nodes Cur MCur o w1 w2 (S f) name1 cf1 (Node a1 l1 t1 d1 da1 ks1) name2 cf2 (Node a2 l2 t2 d2 da2 ks2) =
   (if bytes_eqb name1 [47] && bytes_eqb name2 [47] then []
-   else compare_data (d_data o) name1 name2 (Node a1 l1 t1 d1 da1 ks1) (Node a2 l2 t2 d2 da2 ks2)) ++
+   else compare_data (d_data o) (d_tol o) name1 name2 (Node a1 l1 t1 d1 da1 ks1) (Node a2 l2 t2 d2 da2 ks2)) ++
   (if is_nil (sort_names_by (sort_key o) (map node_name ks1))
    then map (fun q => DRight (slash (unroot name2) q)) (sort_names_by (sort_key o) (map node_name ks2))
    else if is_nil (sort_names_by (sort_key o) (map node_name ks2))
@@ -1387,15 +1550,15 @@ Lemma compare_nodes_S o w1 w2 f name1 cf1 a1 l1 t1 d1 da1 ks1 name2 cf2 a2 l2 t2
                   end)
                (sort_names_by (sort_key o) (map node_name ks2)) (unroot name1) (unroot name2)
                (sort_names_by (sort_key o) (map node_name ks1)) 0).
-Proof. intros Hr. destruct o as [dd df dc ds dr]. simpl in Hr. subst dr. destruct df; reflexivity. Qed.
+Proof. intros Hr. destruct o as [dd df dc ds dr tl]. simpl in Hr. subst dr. destruct df; reflexivity. Qed.
 
 (* G5: without -r only the two named nodes are compared *)
 Lemma no_recurse_only_data : forall o w1 w2 f name1 cf1 a1 l1 t1 d1 da1 ks1 name2 cf2 a2 l2 t2 d2 da2 ks2,
   d_recurse o = false ->
   compare_nodes Cur MCur o w1 w2 (S f) name1 cf1 (Node a1 l1 t1 d1 da1 ks1) name2 cf2 (Node a2 l2 t2 d2 da2 ks2) =
   if bytes_eqb name1 [47] && bytes_eqb name2 [47] then []
-  else compare_data (d_data o) name1 name2 (Node a1 l1 t1 d1 da1 ks1) (Node a2 l2 t2 d2 da2 ks2).
-Proof. intros o. intros. destruct o as [dd df dc ds dr]. simpl in H. subst dr. reflexivity. Qed.
+  else compare_data (d_data o) (d_tol o) name1 name2 (Node a1 l1 t1 d1 da1 ks1) (Node a2 l2 t2 d2 da2 ks2).
+Proof. intros o. intros. destruct o as [dd df dc ds dr tl]. simpl in H. subst dr. reflexivity. Qed.
 
 (* ---- main lemma ------------------------------------------------------------------------------------------------------------------ *)
 Definition diff_stmt (o : dopts) (w1 w2 : world) (f : nat) : Prop :=
@@ -1455,9 +1618,9 @@ Proof.
   - rewrite slash_not_root; [reflexivity|auto].
 Qed.
 
-Lemma diff_main o w1 w2 : d_recurse o = true -> forall fuel, diff_stmt o w1 w2 fuel.
+Lemma diff_main o w1 w2 : d_recurse o = true -> tol_active (d_tol o) = false -> forall fuel, diff_stmt o w1 w2 fuel.
 Proof.
-  intros Hr. induction fuel as [|f IH]; intros t1 t2 name1 name2 cf1 cf2 NR L1 L2 U1 U2 E1 E2 O1 O2 D.
+  intros Hr Ht. induction fuel as [|f IH]; intros t1 t2 name1 name2 cf1 cf2 NR L1 L2 U1 U2 E1 E2 O1 O2 D.
   { destruct t1; simpl in D; lia. }
   destruct t1 as [a1 l1 dt1 d1 da1 ks1|]; [|discriminate].
   destruct t2 as [a2 l2 dt2 d2 da2 ks2|]; [|discriminate].
@@ -1466,7 +1629,7 @@ Proof.
   cbn [names_nonempty] in E1, E2.
   apply andb_true_iff in U1 as [ND1 U1]. apply andb_true_iff in U2 as [ND2 U2].
   apply andb_true_iff in O1 as [K1 O1]. apply andb_true_iff in O2 as [K2 O2].
-  pose proof (compare_data_nil_dd (d_data o) name1 name2 a1 l1 dt1 d1 da1 ks1 a2 l2 dt2 d2 da2 ks2 K1 K2) as CD.
+  pose proof (compare_data_nil_dd (d_data o) (d_tol o) name1 name2 a1 l1 dt1 d1 da1 ks1 a2 l2 dt2 d2 da2 ks2 Ht K1 K2) as CD.
   match goal with |- (_ ++ ?B = [] <-> _) =>
     assert (KI : B = [] <-> sort_nodes (map (canon_by (find_key o) (d_data o)) ks1) =
                             sort_nodes (map (canon_by (find_key o) (d_data o)) ks2)) end.
@@ -1482,6 +1645,7 @@ Qed.
 (* ---- G3: the theorems ---------------------------------------------------------------------------------------------------------------- *)
 Theorem diff_empty_iff : forall o w1 w2 fuel name1 cf1 t1 name2 cf2 t2,
   d_recurse o = true ->
+  tol_active (d_tol o) = false ->
   bytes_eqb name1 [47] && bytes_eqb name2 [47] = false ->
   link_free t1 = true -> link_free t2 = true ->
   keys_unique (find_key o) t1 = true -> keys_unique (find_key o) t2 = true ->
@@ -1497,6 +1661,7 @@ Qed.
 (* whole files: the roots' own label / type / data are not compared, only the forests below them *)
 Theorem cgnsdiff_silent_iff : forall o w1 w2 fuel f1 f2 r1 r2,
   d_recurse o = true ->
+  tol_active (d_tol o) = false ->
   get_file w1 f1 = Some r1 -> get_file w2 f2 = Some r2 ->
   link_free r1 = true -> link_free r2 = true ->
   keys_unique (find_key o) r1 = true -> keys_unique (find_key o) r2 = true ->
@@ -1507,7 +1672,7 @@ Theorem cgnsdiff_silent_iff : forall o w1 w2 fuel f1 f2 r1 r2,
    sort_nodes (map (canon_by (find_key o) (d_data o)) (kids_of r1)) =
    sort_nodes (map (canon_by (find_key o) (d_data o)) (kids_of r2))).
 Proof.
-  intros o w1 w2 fuel f1 f2 r1 r2 Hr G1 G2 L1 L2 U1 U2 E1 E2 O1 O2 D. unfold cgnsdiff. rewrite G1, G2.
+  intros o w1 w2 fuel f1 f2 r1 r2 Hr Ht G1 G2 L1 L2 U1 U2 E1 E2 O1 O2 D. unfold cgnsdiff. rewrite G1, G2.
   destruct fuel as [|f]. { destruct r1; simpl in D; lia. }
   destruct r1 as [a1 l1 dt1 d1 da1 ks1|]; [|discriminate].
   destruct r2 as [a2 l2 dt2 d2 da2 ks2|]; [|discriminate].
@@ -1522,12 +1687,12 @@ Qed.
 
 (* nothing is reported for identical forests under different roots (an ADF file and its HDF5 conversion) *)
 Theorem cgnsdiff_same_forest_silent : forall o w1 w2 fuel f1 f2 r1 r2,
-  d_recurse o = true -> get_file w1 f1 = Some r1 -> get_file w2 f2 = Some r2 -> kids_of r2 = kids_of r1 ->
+  d_recurse o = true -> tol_active (d_tol o) = false -> get_file w1 f1 = Some r1 -> get_file w2 f2 = Some r2 -> kids_of r2 = kids_of r1 ->
   link_free r1 = true -> link_free r2 = true -> keys_unique (find_key o) r1 = true -> names_nonempty r1 = true ->
   kids_ok Old false r1 = true -> (depth r1 <= fuel)%nat ->
   cgnsdiff Cur MCur o w1 w2 fuel f1 f2 = [].
 Proof.
-  intros o w1 w2 fuel f1 f2 r1 r2 Hr G1 G2 EK L1 L2 U1 E1 O1 D.
+  intros o w1 w2 fuel f1 f2 r1 r2 Hr Ht G1 G2 EK L1 L2 U1 E1 O1 D.
   apply (cgnsdiff_silent_iff o w1 w2 fuel f1 f2 r1 r2); auto.
   - destruct r1; [|discriminate]. destruct r2; [|discriminate]. simpl in EK. subst.
     rewrite keys_unique_node in *. exact U1.
@@ -1539,6 +1704,7 @@ Qed.
 (* and every difference between the forests is reported *)
 Theorem cgnsdiff_reports_difference : forall o w1 w2 fuel f1 f2 r1 r2,
   d_recurse o = true ->
+  tol_active (d_tol o) = false ->
   get_file w1 f1 = Some r1 -> get_file w2 f2 = Some r2 ->
   link_free r1 = true -> link_free r2 = true ->
   keys_unique (find_key o) r1 = true -> keys_unique (find_key o) r2 = true ->
@@ -1549,16 +1715,62 @@ Theorem cgnsdiff_reports_difference : forall o w1 w2 fuel f1 f2 r1 r2,
   sort_nodes (map (canon_by (find_key o) (d_data o)) (kids_of r2)) ->
   cgnsdiff Cur MCur o w1 w2 fuel f1 f2 <> [].
 Proof.
-  intros o w1 w2 fuel f1 f2 r1 r2 Hr G1 G2 L1 L2 U1 U2 E1 E2 O1 O2 D Hne C.
+  intros o w1 w2 fuel f1 f2 r1 r2 Hr Ht G1 G2 L1 L2 U1 U2 E1 E2 O1 O2 D Hne C.
   apply Hne. apply (cgnsdiff_silent_iff o w1 w2 fuel f1 f2 r1 r2); auto.
 Qed.
 
 (* ---- H4: a forest compared with itself is silent, whatever the keys; the repaired loop stays inside its arrays ---------------- *)
-Lemma compare_data_refl dd n1 n2 a l t d da ks a' ks' :
-  compare_data dd n1 n2 (Node a l t d da ks) (Node a' l t d da ks') = [].
+Lemma bminus_self prec emax (Hp : FLX.Prec_gt_0 prec) (Hm : BinarySingleNaN.Prec_lt_emax prec emax)
+  (x : BinarySingleNaN.binary_float prec emax) :
+  @BinarySingleNaN.Bminus prec emax Hp Hm BinarySingleNaN.mode_NE x x = BinarySingleNaN.B754_zero false \/
+  @BinarySingleNaN.Bminus prec emax Hp Hm BinarySingleNaN.mode_NE x x = BinarySingleNaN.B754_nan.
+Proof.
+  destruct x as [s|s| |s m e H].
+  - left. destruct s; reflexivity.
+  - right. destruct s; reflexivity.
+  - right. reflexivity.
+  - left. unfold BinarySingleNaN.Bminus.
+    assert (E : BinarySingleNaN.Fplus_naive s m e (negb s) m e (Z.min e e) = 0).
+    { unfold BinarySingleNaN.Fplus_naive. generalize (fst (SpecFloat.shl_align m e (Z.min e e))). intros p.
+      unfold SpecFloat.cond_Zopp. destruct s; cbn [negb]; lia. }
+    cbv zeta. rewrite E. reflexivity.
+Qed.
+Lemma gt_tol_zero tol : tol_active tol = true -> gt_tol (BinarySingleNaN.B754_zero false) tol = false.
+Proof.
+  unfold tol_active, gt_tol. unfold BinarySingleNaN.Bcompare. destruct (dbl tol) as [s|s| |s m e H]; simpl.
+  - discriminate.
+  - destruct s; simpl; auto; discriminate.
+  - discriminate.
+  - destruct s; simpl; auto; discriminate.
+Qed.
+Lemma gt_tol_nan tol : gt_tol BinarySingleNaN.B754_nan tol = false.
+Proof. unfold gt_tol, BinarySingleNaN.Bcompare. destruct (dbl tol); reflexivity. Qed.
+Lemma exceeds_tol64_self x tol : tol_active tol = true -> exceeds_tol64 x x tol = false.
+Proof.
+  intros H. unfold exceeds_tol64. destruct (bminus_self 53 1024 Hp64 Hm64 (dbl x)) as [E|E]; rewrite E.
+  - apply gt_tol_zero; auto.
+  - apply gt_tol_nan.
+Qed.
+Lemma exceeds_tol32_self x tol : tol_active tol = true -> exceeds_tol32 x x tol = false.
+Proof.
+  intros H. unfold exceeds_tol32. destruct (bminus_self 24 128 Hp32 Hm32 (flt x)) as [E|E]; rewrite E.
+  - apply gt_tol_zero; auto.
+  - apply gt_tol_nan.
+Qed.
+Lemma compare_floats_self tol l : tol_active tol = true -> compare_floats tol l l = false.
+Proof. intros H. induction l as [|x r IH]; cbn [compare_floats]; auto. rewrite exceeds_tol32_self; auto. Qed.
+Lemma compare_doubles_self tol l : tol_active tol = true -> compare_doubles tol l l = false.
+Proof. intros H. induction l as [|x r IH]; cbn [compare_doubles]; auto. rewrite exceeds_tol64_self; auto. Qed.
+
+(* a node against itself, for every tolerance: x - x is +0 or NaN, never beyond a positive tolerance *)
+Lemma compare_data_refl dd tol n1 n2 a l t d da ks a' ks' :
+  compare_data dd tol n1 n2 (Node a l t d da ks) (Node a' l t d da ks') = [].
 Proof.
   unfold compare_data. rewrite !bytes_eqb_refl, Nat.eqb_refl. cbn [negb].
   destruct (negb dd || is_nil d); auto. destruct (0 <? diff_data_size t d); auto.
+  destruct (tol_active tol) eqn:Ha; cbn [andb]; auto.
+  destruct (negb (diff_num_size t =? 0)); auto.
+  destruct (diff_num_size t =? 4); [rewrite compare_floats_self|rewrite compare_doubles_self]; auto.
 Qed.
 
 Definition kids_expr (o : dopts) (w1 w2 : world) (f : nat) (nm1 nm2 cf1 cf2 : bytes) (ks1 ks2 : list node) : list dline :=
@@ -1578,10 +1790,10 @@ Definition kids_expr (o : dopts) (w1 w2 : world) (f : nat) (nm1 nm2 cf1 cf2 : by
 Lemma compare_nodes_S_gen o w1 w2 f name1 cf1 a1 l1 t1 d1 da1 ks1 name2 cf2 a2 l2 t2 d2 da2 ks2 :
   compare_nodes Cur MCur o w1 w2 (S f) name1 cf1 (Node a1 l1 t1 d1 da1 ks1) name2 cf2 (Node a2 l2 t2 d2 da2 ks2) =
   let out := if bytes_eqb name1 [47] && bytes_eqb name2 [47] then []
-             else compare_data (d_data o) name1 name2 (Node a1 l1 t1 d1 da1 ks1) (Node a2 l2 t2 d2 da2 ks2) in
+             else compare_data (d_data o) (d_tol o) name1 name2 (Node a1 l1 t1 d1 da1 ks1) (Node a2 l2 t2 d2 da2 ks2) in
   if negb (d_recurse o) then out
   else out ++ kids_expr o w1 w2 f (unroot name1) (unroot name2) cf1 cf2 ks1 ks2.
-Proof. destruct o as [dd df dc ds dr]. destruct dr, df; reflexivity. Qed.
+Proof. destruct o as [dd df dc ds dr tl]. destruct dr, df; reflexivity. Qed.
 
 Lemma find_name_self key p rest : find_name MCur key p (p :: rest) = 0.
 Proof. unfold find_name. cbn [nth]. rewrite bytes_eqb_refl. reflexivity. Qed.
@@ -1707,15 +1919,30 @@ Proof.
            ++ apply (IH (nr + 1)); auto. lia.
         -- destruct I as [C|[]]. discriminate.
 Qed.
+
+
+(* ---- D: what comparing complex floats as doubles would lose ------------------------------------------------------------------- *)
+(* X4 data (1.0f, 1e-30f) (3.0f, -4.0f) against (1.5f, 1e-30f) (3.0f, -4.0f), tol = 0.1: as floats the real parts differ by 0.5;
+   read as doubles the first value pair differs by far less than 0.1 *)
+Lemma x4_as_doubles_misses_real_part :
+  let da1 := [0;0;128;63; 96;66;162;13; 0;0;64;64; 0;0;128;192] in
+  let da2 := [0;0;192;63; 96;66;162;13; 0;0;64;64; 0;0;128;192] in
+  compare_floats 0x3FB999999999999A (values 4 da1) (values 4 da2) = true /\
+  compare_doubles 0x3FB999999999999A (values 8 da1) (values 8 da2) = false.
+Proof. vm_compute. auto. Qed.
+
+(* closed: no compare_data / compare_nodes in the proof term *)
+(* these mention compare_data / compare_nodes / exceeds_tol*, whose DEFINITIONS in Copy.v go through Flocq: they inherit the
+   four axioms of Coq's classical real numbers that Flocq's definitions depend on *)
 End DiffP.
 
 (* ---- cgnsdiff: repaired corners (Old / Cur) and the known one ------------------------------------------------------------------------- *)
 Definition strip := DiffP.strip.
 Definition has_oob (l : list dline) : bool :=
   existsb (fun d => match d with DOutOfBounds => true | _ => false end) l.
-Definition o_d : dopts := mkO true false false false true.       (* cgnsdiff -d *)
-Definition o_cd : dopts := mkO true false true false true.      (* cgnsdiff -c -d *)
-Definition o_di : dopts := mkO true false false true true.      (* cgnsdiff -d -i *)
+Definition o_d : dopts := mkO true false false false true 0.       (* cgnsdiff -d *)
+Definition o_cd : dopts := mkO true false true false true 0.      (* cgnsdiff -c -d *)
+Definition o_di : dopts := mkO true false false true true 0.      (* cgnsdiff -d -i *)
 
 (* before 39f8525: an ADF file and its exact HDF5 conversion -- cgnsdiff reported the roots' labels; now it is silent *)
 Lemma diff_cross_format_root_label_old :
@@ -1810,16 +2037,18 @@ Proof. intros; split; apply do_copy_file_nofollow; assumption. Qed.
 Lemma follow_succeeds_somewhere : exists w', cgnsconvert Cur 4 worldAB [65] [67] false true = Ok w'.
 Proof. eexists. vm_compute. reflexivity. Qed.
 
-(* cgnsdiff -d -t1e-6 on the doubles (2.0) and (NaN): "fabs(a-b) > tol" is false for a NaN, nothing is reported
-   (with the default tolerance 0 the bytes are compared and the difference IS reported: compare_data) *)
+(* cgnsdiff -d -t1e-6 on the doubles (2.0) and (NaN): "fabs(a-b) > tol" is false for a NaN, nothing is reported; with the
+   default tolerance 0 the bytes are compared and the difference IS reported *)
 Lemma diff_tol_nan_blind :
-  exists d1 d2 tol, d1 <> d2 /\ Binary.is_nan 53 1024 (b64_of_bits d2) = true /\
+  exists d1 d2 tol, d1 <> d2 /\ Binary.is_nan 53 1024 (b64_of_bits d2) = true /\ tol_active tol = true /\
                     compare_doubles tol [d1] [d2] = false /\
-                    compare_data true [47;97] [47;97] (Node [97] [] [82;56] [1] [0;0;0;0;0;0;0;64] [])
-                                                      (Node [97] [] [82;56] [1] [0;0;0;0;0;0;248;127] []) = [DData [47;97] [47;97]].
+                    compare_data true tol [47;97] [47;97] (Node [97] [] [82;56] [1] [0;0;0;0;0;0;0;64] [])
+                                                          (Node [97] [] [82;56] [1] [0;0;0;0;0;0;248;127] []) = [] /\
+                    compare_data true 0 [47;97] [47;97] (Node [97] [] [82;56] [1] [0;0;0;0;0;0;0;64] [])
+                                                        (Node [97] [] [82;56] [1] [0;0;0;0;0;0;248;127] []) = [DData [47;97] [47;97]].
 Proof.
   exists 0x4000000000000000, 0x7ff8000000000000, 0x3eb0c6f7a0b5ed8d.
-  split; [discriminate|]. split; [vm_compute; reflexivity|]. split; vm_compute; reflexivity.
+  split; [discriminate|]. repeat (split; [vm_compute; reflexivity|]). vm_compute; reflexivity.
 Qed.
 
 (* the [depth] argument as the C code carries it: `++depth` at the call site inside the loop over the children, so the
